@@ -217,6 +217,10 @@ func KeyPairFromSeed(seed []byte) *keystore.KeyPair {
 	return &keystore.KeyPair{Pub: priv.Public().(ed25519.PublicKey), Priv: priv}
 }
 
+// OpenFault, if set, is installed as the state store's fault for the next OpenNode call only (an I/O error met while the
+// node process starts up).
+var OpenFault StateFault
+
 // OpenNode constructs a node on dir exactly as cmd/dc4bc_d does
 // (state, repositories, services, NewNode), except that the board is a View
 // and the key store and logger are in memory. It does not start polling.
@@ -226,7 +230,9 @@ func OpenNode(name, dir string, kp *keystore.KeyPair, view *View, skipVerificati
 		return nil, fmt.Errorf("failed to init state: %w", err)
 	}
 	n := &Node{Name: name, Dir: dir, KeyPair: kp, LDB: ldb, View: view, Log: &CapLogger{Name: name}}
-	n.State = &HookState{Inner: ldb, Topic: Topic}
+	n.State = &HookState{Inner: ldb, Topic: Topic, fault: OpenFault}
+	OpenFault = nil
+	defer n.State.SetFault(nil) // a start-up fault lasts for the start-up only
 	ks := NewMemKeyStore()
 	_ = ks.PutKeys(name, kp)
 
